@@ -23,8 +23,8 @@ RULE = ("case = one cell (2-3 client threads each with 1-2 operations get/update
         "Distinct = distinct schedule trace (thread, yield-point label sequence) within a cell; non-trivial = execution completed and was judged.")
 ASSUMPTIONS = ["the yield points (lock acquire/release, submit, future wait, open/read/write/close, exists/getsize/makedirs/fsync) are the only places where the cache's outcome can depend on the schedule",
                "interleavings finer than the yield points and beyond the preemption bound are not explored"]
-MIN_COUNTS = {"quick": {"nontrivial": 2500, "distinct_schedules": 2500, "cells": 60, "clean_cell_executions": 800},
-              "thorough": {"nontrivial": 100000, "distinct_schedules": 40000, "cells": 300, "clean_cell_executions": 20000}}
+MIN_COUNTS = {"quick": {"nontrivial": 2500, "distinct_schedules": 2500, "cells": 60, "clean_cell_executions": 800, "df_executions": 800},
+              "thorough": {"nontrivial": 100000, "distinct_schedules": 40000, "cells": 300, "clean_cell_executions": 20000, "df_executions": 15000}}
 CASE_TIMEOUT = 900
 MIN_SHARD = 2
 
@@ -62,6 +62,25 @@ def cases(tier, seed):
     small = [[["get", "f"]], [["update", "f"]], [["unload", "f"]]]
     for a, b in itertools.combinations_with_replacement(range(3), 2):
         out.append({"threads": [small[a], small[b]], "initial": {"f": True}, "limit": "big", "strategy": "dfs", "bound": 2, "n": 1500 if tier == "quick" else 30000, "salt": 0})
+    # table-merge family (PandasDataFrameCache.update with its per-file append lock): see c18_df.py
+    dfops = ["append", "read", "unload"]
+    dfprogs = [[[k, "f"]] for k in dfops] + [[[k1, "f"], [k2, "f"]] for k1 in dfops for k2 in dfops]
+    dfcells = []
+    for a, b in itertools.combinations_with_replacement(range(len(dfprogs)), 2):
+        kinds = [op[0] for op in dfprogs[a] + dfprogs[b]]
+        if "append" not in kinds:
+            continue
+        dfcells.append({"kind": "df", "threads": [dfprogs[a], dfprogs[b]], "initial": {"f": rng.random() < 0.6}, "limit": "big"})
+    dfcells.append({"kind": "df", "threads": [[["append", "f"]], [["append", "f"]], [["append", "f"]]], "initial": {"f": False}, "limit": "big"})
+    dfcells.append({"kind": "df", "threads": [[["append", "f"], ["append", "f"]], [["append", "f"]], [["read", "f"]]], "initial": {"f": True}, "limit": "big"})
+    ndf = 10 if tier == "quick" else 150
+    for c in dfcells:
+        two_appends = sum(1 for th in c["threads"] for op in th if op[0] == "append") >= 2
+        out.append(dict(c, strategy="random", n=ndf * (3 if two_appends else 1), salt=rng.randrange(10 ** 9)))
+        if two_appends:
+            out.append(dict(c, strategy="sticky", n=ndf, salt=rng.randrange(10 ** 9)))
+    out.append({"kind": "df", "threads": [[["append", "f"]], [["append", "f"]]], "initial": {"f": False}, "limit": "big", "strategy": "dfs", "bound": 2, "n": 400 if tier == "quick" else 20000, "salt": 0})
+    out.append({"kind": "df", "threads": [[["append", "f"]], [["append", "f"]]], "initial": {"f": True}, "limit": "big", "strategy": "dfs", "bound": 2, "n": 400 if tier == "quick" else 20000, "salt": 0})
     if tier == "thorough":
         progs2 = _programs(1, ["f", "g"])
         for _ in range(150):
@@ -84,12 +103,14 @@ def finish_shard(ctx):
 
 
 def opmix(case):
-    return "+".join(sorted(op[0] for th in case["threads"] for op in th))
+    return ("df:" if case.get("kind") == "df" else "") + "+".join(sorted(op[0] for th in case["threads"] for op in th))
 
 
 def is_clean_cell(case):
     """Cells in which no get-triggered load can overlap an update (the known load/write races cannot occur)."""
     kinds = [op[0] for th in case["threads"] for op in th]
+    if case.get("kind") == "df":
+        return "read" not in kinds and "unload" not in kinds
     return not ("get" in kinds and "update" in kinds)
 
 
@@ -253,7 +274,7 @@ def run_case(ctx, case):
     mix = opmix(case)
     clean = is_clean_cell(case)
     dfs = S.DFS(case.get("bound", 2)) if case["strategy"] == "dfs" else None
-    cellkey = "%s|%s|%s" % (repr(case["threads"]), sorted(case["initial"].items()), case["limit"])
+    cellkey = "%s%s|%s|%s" % (case.get("kind", ""), repr(case["threads"]), sorted(case["initial"].items()), case["limit"])
     for it in range(case["n"]):
         if case["strategy"] == "random":
             ch = S.random_chooser(rng)
@@ -261,7 +282,13 @@ def run_case(ctx, case):
             ch = S.sticky_chooser(rng, 0.2)
         else:
             ch = dfs.chooser()
-        out = execute(ctx, case, ch, it)
+        if case.get("kind") == "df":
+            from vf.checks.c18_df import execute_df
+            out = execute_df(ctx, case, ch, it)
+            cnt["df_executions"] = cnt.get("df_executions", 0) + 1
+            cnt["df_append_locks_created"] = cnt.get("df_append_locks_created", 0) + out.get("locks_created", 0)
+        else:
+            out = execute(ctx, case, ch, it)
         n_done += 1
         tkey = hashlib.sha1(repr(out["trace"]).encode()).hexdigest()[:16]
         if tkey not in seen:
